@@ -229,9 +229,12 @@ func cmdCheck(args []string) int {
 		}
 		rep := x.Run()
 		reports = append(reports, rep)
-		fmt.Printf("harness %-28s paths=%d completed=%d obligations=%d discharged=%d trivial=%d unknown=%d feasq=%d ifconv=%d solver=%.1fs wall=%.1fs statuses=%v\n",
+		fmt.Printf("harness %-28s paths=%d completed=%d obligations=%d discharged=%d trivial=%d unknown=%d feasq=%d ifconv=%d solver=%.1fs oneshots=%d%v wall=%.1fs statuses=%v\n",
 			h.Name, rep.Paths, rep.Completed, rep.Obl, rep.Discharged, rep.Trivial, rep.Unknown, rep.FeasQ, rep.IfConverted,
-			rep.SolverTime.Seconds(), rep.Wall.Seconds(), rep.Statuses)
+			rep.SolverTime.Seconds(), rep.OneShots, rep.Winners, rep.Wall.Seconds(), rep.Statuses)
+		if os.Getenv("GOSYM_TIMING") != "" {
+			fmt.Println("  timing:", x.Timing())
+		}
 		for m, n := range rep.Msgs {
 			fmt.Printf("  [%d×] %s\n", n, clip(m, 1500))
 		}
